@@ -204,6 +204,7 @@ def main(argv=None):
                 kf = _match_finding(findings, res["task"], ob["name"])
                 if kf is not None:
                     known_hit.setdefault(kf["id"], []).append((res, ob))
+                    obligations -= 1          # reported separately (known_finding_obligations), not as discharged
                 else:
                     violations.append((res, ob))
             else:
